@@ -862,7 +862,10 @@ Section ValEngineProofs.
           by (unfold s2; rewrite core_vstep; apply cls_step_begin_off; assumption).
         assert (Hnr : stE (core task s2) t <> Running).
         { rewrite E2. intros Hrun. apply cls_running in Hrun. rewrite C1 in Hrun.
-          apply cls_running in Hrun. rewrite S1, Hrun in Hr. cbn in Hr. rewrite S1, Hrun in *. discriminate. }
+          destruct (in_dec teq t l1) as [Hi|Hi]; [|rewrite (P2 t Hi) in Hrun; discriminate].
+          destruct (in_dec teq t tasks) as [Ht|Ht].
+          - rewrite (P1 t Ht Hi) in Hrun. discriminate.
+          - rewrite (inv_absent _ _ _ _ _ (vi_core s V) t Ht) in Hrun. discriminate. }
         assert (E3 : core task s3 = core task s2)
           by (unfold s3; rewrite core_vstep; apply cls_step_end_off; assumption).
         rewrite E3, E2. apply C1. }
